@@ -261,7 +261,7 @@ def run(rep):
     import C16
     rep.guarded("R-C16-process", C16.rule_process)
     rep.guarded("R-C16-partial", C16.rule_partial)
-    rep.floor("R-C11-guard", 50)
+    rep.floor("R-C11-guard", 40)
     rep.floor("R-C11-index", 70)
     rep.floor("R-C11-count", 14)
     rep.floor("R-C11-scratch", 7 + 6)
